@@ -175,10 +175,11 @@ PROPS["C17"] = {
     "level": "exploration",
     "rule": ("Structured configurations (0-3 compress profiles, 1-3 caches/upstreams/locations, 0-3 servers; names, remarks and values from a pool of YAML-sensitive strings) valid by construction, one third mutated by exactly one of 23 defect kinds "
              "(dangling references, over-long names, bad duration/size/regexp/policy/addr/prefix/key:value/hostname, non-positive size, empty lists). Oracle: accepted => reference closure check passes; injected defect => rejected; Write agrees with Validate; Read(Write(c)) == c up to nil/empty and display-only fields. "
-             "Non-trivial = accepted with >=1 server, location, upstream and a name/value needing YAML quoting, or rejected with exactly one defect. The 'apply' part (no lookup fails after applying an accepted config) runs in the C16 engine."),
+             "Non-trivial = accepted with >=1 server, location, upstream and a name/value needing YAML quoting, or rejected with exactly one defect. TestC17Apply: generated accepted configurations (awkward names, 1-3 servers/caches/upstreams, 1-4 locations) are applied in-process with the call sequence of main.update and every server is probed once per listed location: no answer may be pike's cache-dispatcher/location/upstream 'not found' error."),
     "assumptions": ["the file client (InitDefaultClient on a temp file) is the persistence used; etcd is not available offline"],
     "jobs": [
         {"engine": "unit", "test": "TestC17", "quick": {"shards": 8, "checks": 2500, "timeout": 500}, "thorough": {"shards": 16, "checks": 60000, "timeout": 3400}},
+        {"engine": "netw", "test": "TestC17Apply", "quick": {"shards": 8, "checks": 150, "timeout": 500}, "thorough": {"shards": 16, "checks": 5000, "timeout": 3400}},
         {"engine": "unit", "test": "TestC17ProbeLevelsKey", "rapid": False, "probe": True, "quick": {"shards": 1, "timeout": 60}, "thorough": {"shards": 1, "timeout": 60}},
     ],
 }
